@@ -2,10 +2,10 @@ open Model
 open Wire
 
 (* request (one line, blank separated):
-   run MODE CAP LIMIT FCAP  NC (id sink append stdout echo drain exkind excode)*  NB id*  NF (id hex)*  NO op*
-   op: P dk id np hex* | C id | F id(-1 = all) | S id | G id | K id | I | X code | E *)
+   run MODE CAP LIMIT FCAP  NC (id sink append stdout echo drain closes exkind excode)*  NB id*  NF (id hex)*  NO op*
+   op: P dk id np hex* | C id | F id(-1 = all) | S id | G id | K id | I | X code | E | W id *)
 
-let default_spec = { c_sink = None; c_append = []; c_stdout = []; c_echo = false; c_drain = false; c_exit = Exited Z0 }
+let default_spec = { c_sink = None; c_append = []; c_stdout = []; c_echo = false; c_drain = false; c_closes = false; c_exit = Exited Z0 }
 
 let handle toks =
   match toks with
@@ -26,11 +26,12 @@ let handle toks =
       let out = bytes_of_hex (next ()) in
       let echo = bool_of_string (next ()) in
       let drain = bool_of_string (next ()) in
+      let closes = bool_of_string (next ()) in
       let k = next () in
       let code = z_of_string (next ()) in
       let ex = match k with "e" -> Exited code | "s" -> Signaled code | "c" -> CoreDumped code | _ -> WaitIOErr in
       specs := (id, { c_sink = (if sink < 0 then None else Some (z_of_int sink)); c_append = app; c_stdout = out;
-                      c_echo = echo; c_drain = drain; c_exit = ex }) :: !specs
+                      c_echo = echo; c_drain = drain; c_closes = closes; c_exit = ex }) :: !specs
     done;
     let nb = nexti () in
     let bad = ref [] in
@@ -65,6 +66,7 @@ let handle toks =
         | "I" -> GetlineStdin
         | "X" -> Exit (z_of_string (next ()))
         | "E" -> RuntimeError
+        | "W" -> AwaitFile (z_of_int (nexti ()))
         | t -> failwith ("bad op " ^ t) in
       ops := !ops @ [ o ]
     done;
